@@ -426,6 +426,23 @@ def _is_last_line(F, top, e, depth=0):
             arr = JF.unparen(_callee(e)["object"])
         elif m == "at" and len(a) == 1 and JF.text(a[0]) == "-1":
             arr = JF.unparen(_callee(e)["object"])
+        elif m in ("substring", "slice", "substr") and len(a) == 1:
+            # <trimmed>.substring(<trimmed>.lastIndexOf('\n') + 1): the text after the last line end
+            obj = JF.unparen(_callee(e)["object"])
+            off = JF.unparen(a[0])
+            ok_off = off.get("type") == "BinaryExpression" and off["operator"] == "+" and JF.unparen(off["right"]).get("value") == 1
+            li = JF.unparen(off["left"]) if ok_off else {}
+            ok_li = li.get("type") == "CallExpression" and method_name(li) == "lastIndexOf" and JF.text(_callee(li)["object"]) == JF.text(obj) and len(args(li)) == 1 and args(li)[0].get("type") == "StringLiteral" and args(li)[0]["value"] == "\n"
+            if ok_off and ok_li:
+                recv = obj
+                for _ in range(4):
+                    if recv.get("type") == "Identifier" and recv["value"] not in F.params(top):
+                        init = r(recv["value"])
+                        if init is None:
+                            return False, "`%s` is reassigned" % recv["value"]
+                        recv = JF.unparen(init)
+                okt = recv.get("type") == "CallExpression" and method_name(recv) in ("trim", "trimEnd", "trimRight") and jsast.ident_name(JF.unparen(_callee(recv)["object"])) in F.params(top)[:1]
+                return (True, "") if okt else (False, "%s is not the trimmed content" % JF.text(recv)[:60])
     if arr is None:
         return False, "%s is no last-element idiom" % JF.text(e)[:60]
     # the array: <trimmed>.split(newline)
@@ -781,8 +798,12 @@ def rule_stack(c, R, F):
     for n in jsast.walk(jf.program):
         if n.get("type") == "VariableDeclarator" and n.get("init") is not None:
             i = JF.unparen(n["init"])
-            if i.get("type") == "CallExpression" and chain(i)[-1:] in (["exec"], ["match"]) and any(jsast.ident_name(a) and "rigin" in jsast.ident_name(a) for a in args(i) + [_callee(i).get("object", {})]):
-                data_names.add(jsast.ident_name(n["id"]))
+            if i.get("type") == "CallExpression" and chain(i)[-1:] in (["exec"], ["match"]):
+                operands = args(i) + [_callee(i).get("object", {})]
+                # the eval origin of the frame: a variable holding it, or `<call site>.getEvalOrigin()` itself
+                is_origin = any((jsast.ident_name(a) and "rigin" in jsast.ident_name(a)) or (JF.unparen(a).get("type") == "CallExpression" and method_name(JF.unparen(a)) == "getEvalOrigin") for a in operands if isinstance(a, dict))
+                if is_origin:
+                    data_names.add(jsast.ident_name(n["id"]))
 
     def helper_truth(call, depth=0):
         """formula of the truthiness of a local helper's result, from its return paths"""
